@@ -92,6 +92,7 @@ class Case:
             if s.veq:       # same value (+0 == -0), or both NaN
                 return z3.Or(z3.fpEQ(fpv_of(x), fpv_of(y)), z3.And(z3.fpIsNaN(fpv_of(x)), z3.fpIsNaN(fpv_of(y))))
             return same_float(x, y)
+        if z3.is_bv(x) and z3.is_bv(y): return canon(z3.simplify(x)) == canon(z3.simplify(y))      # integer results computed through floating point (mix with a float interpolant): same operand order
         return x == y
     def mutant(s):
         """wrong spec (component 0 of the vector result against component 1 of the reference) - must be satisfiable"""
@@ -456,6 +457,11 @@ def gen_mat(G, shapes, probe=None):
             C.raw('equal', 1, 'glm::vec<%d,bool,glm::%s> r = glm::equal(%s, %s); $0[0] = r[%d];' % (Cn, G.q, Ma, Mb, cc), '$0[0] = %s;' % ' && '.join('(a[%d] == b[%d])' % (k, k) for k in idx), base=cc)
             C.raw('notEqual', 1, 'glm::vec<%d,bool,glm::%s> r = glm::notEqual(%s, %s); $0[0] = r[%d];' % (Cn, G.q, Ma, Mb, cc), '$0[0] = %s;' % ' || '.join('(a[%d] != b[%d])' % (k, k) for k in idx), base=cc)
         if probe is None: o.append(C)
+        if not isf(t) and probe is None:        # integer matrices blended with a floating interpolant: per element what the scalar mix(int, int, float) returns
+            C = Case('mixf' + sfx, [(c, N), (c, N), ('float', 1)], [c], side=False, timeout=90,
+                     bounds='all element values, every interpolant; the float -> integer conversion of an out-of-range blend (UB in the scalar and the matrix overload alike) as the same unspecified function')
+            C.raw('scalar-a', N, 'stm($0, glm::mix(%s, %s, c[0]));' % (Ma, Mb), '$0[#] = glm::mix(a[#], b[#], c[0]);')
+            o.append(C)
         if isf(t):
             C = Case('mix' + sfx, [(c, N), (c, N), (c, N)], [c], bounds='all values', timeout=90)
             if probe is None:
